@@ -171,7 +171,7 @@ def eq_table(ctx, model, ci, fn, cons):
     isa = {ci.name: {c.name for c in model.mro(ci)}}
 
     def run(a, b):
-        it = Interp(isa, {}, methods=methods)
+        it = Interp.for_file(ctx.src, ci.file, isa, {}, methods=methods)
         try:
             return it.call_function(fn, [a, b], {}, Env())
         except Raised as r:
@@ -204,6 +204,24 @@ def eq_table(ctx, model, ci, fn, cons):
     ctx.ob('C18.eq-symmetric', f'{cons}:transitive', bad is None,
            f'{cons} is not transitive: the objects of the cases {bad} satisfy a == b and b == c but not a == c (e.g. a comparison that stops at the shorter of two lists '
            f'makes every plan equal to its prefixes)' if bad else '', file=ci.file, line=fn.lineno)
+    # hash: an int, and equal objects hash alike (__hash__ interpreted on the same objects)
+    hf = ci.methods.get('__hash__')
+    if hf is not None:
+        def run_hash(a):
+            it = Interp.for_file(ctx.src, ci.file, isa, {}, methods=methods)
+            try:
+                return it.call_function(hf, [a], {}, Env())
+            except Raised as r:
+                return f'<raises {r.exc_name}>'
+        hs = [run_hash(o) for _, o in objs]
+        ctx.ob('C18.hash', f'{ci.name}.__hash__', all(isinstance(h, int) and not isinstance(h, bool) for h in hs),
+               f'{ci.name}.__hash__ gives {[h for h in hs if not isinstance(h, int)][:2]}, which is not an int: hashing raises TypeError',
+               file=ci.file, line=hf.lineno, witness=f'hash({ci.name}(1))')
+        badh = [(objs[i][0], objs[j][0]) for i in range(len(objs)) for j in range(len(objs)) if eqm[(i, j)] is True and hs[i] != hs[j]]
+        ctx.ob('C18.hash-consistent', f'{ci.name}.__hash__', not badh,
+               f'{ci.name}: the objects of the cases {badh[:1]} are equal but hash differently (the hash uses something __eq__ does not compare): '
+               f'a set / dict keyed by them holds duplicates', file=ci.file, line=hf.lineno)
+        ctx.extra.setdefault('hash_tables', []).append(ci.name)
     ctx.count('eq_tables')
     return True
 
@@ -461,6 +479,8 @@ def run(ctx):
             continue
         fn = ci.methods['__hash__']
         ctx.count('hash_methods')
+        if ci.name in ctx.extra.get('hash_tables', []):
+            continue            # decided by interpretation next to the equality table
         eqf = set()
         if '__eq__' in ci.methods:
             eqf = {x.attr for x in ast.walk(ci.methods['__eq__']) if isinstance(x, ast.Attribute) and isinstance(x.value, ast.Name)
